@@ -3,7 +3,7 @@ from ..enumcheck import enum_check, enum_replay
 PROP = "C19"
 HARNESS = "c19_transfer"
 RULE = ("case = (file size in {0, 1, 4095, 4096, 4097, 12289} (thorough: 13 sizes up to 40961 = 11 blocks) around the 4096-byte block size, content pattern in {zeros, counter bytes, 0xff}, "
-        "with/without MD5 hash in the offer, one fault in {none, drop block i, drop block i but acknowledge it (intermediary), duplicate i, "
+        "with/without MD5 hash in the offer, one fault in {none, an extra block inserted after i with the rest renumbered (surplus bytes with consecutive numbers), drop block i, drop block i but acknowledge it (intermediary), duplicate i, "
         "flip a payload bit in i, flip the seq of i, flip the sid of i, forged copy of i with another sid, copy of i from another sender, "
         "forged close after i, data after close} for EVERY block index i); two real QXmppClients with QXmppTransferManager (in-band) over "
         "loopback TCP, the harness relays and stamps their stanzas; plus a scripted sender driving the real receiver through 65 577 one-byte "
